@@ -611,6 +611,23 @@ static uint64_t n_raw_tables, n_raw_gets, n_raw_big_single_blocks;
 
 typedef struct rawget_s { const ent_t *want; int calls, right; } rawget_t;
 
+/* foreign filter policies: [0] "a.verif.RejectAll" and [1] "zz.verif.RejectAll" (names sorting before / after the
+ * built-in bloom's) say "absent" to everything - harmless as long as they are only shown filters they built
+ * themselves, because their build() records the keys' count only and a table whose filter they built is never
+ * read through them here; [2] "m.verif.OneByte" writes a one-byte filter per range and accepts everything */
+static uint64_t n_foreign_policy_gets;
+static void fp_build(const ldb_bloom_t *b, ldb_buffer_t *dst, const ldb_slice_t *keys, size_t length) {
+  (void)b; (void)keys;
+  ldb_buffer_push(dst, (int)(length & 0x7f));
+}
+static int fp_reject(const ldb_bloom_t *b, const ldb_slice_t *filter, const ldb_slice_t *key) { (void)b; (void)filter; (void)key; return 0; }
+static int fp_accept(const ldb_bloom_t *b, const ldb_slice_t *filter, const ldb_slice_t *key) { (void)b; (void)filter; (void)key; return 1; }
+static ldb_bloom_t foreign_pol[3] = {
+  {"a.verif.RejectAll", fp_build, fp_reject, 0, 0, NULL, NULL},
+  {"zz.verif.RejectAll", fp_build, fp_reject, 0, 0, NULL, NULL},
+  {"m.verif.OneByte", fp_build, fp_accept, 0, 0, NULL, NULL},
+};
+
 static void
 rawget_cb(void *arg, const ldb_slice_t *k, const ldb_slice_t *v) {
   rawget_t *c = arg;
@@ -766,6 +783,73 @@ run_raw(int cfgi, unsigned mask, int pat, fail_t *f) {
   }
   if (ldb_iter_status(it) != LDB_OK)
     TFAIL("iter_status", "raw keys, %s mask=0x%02x pat=%d: iterator status %d", ct, mask, pat, ldb_iter_status(it));
+  /* reader policy != writer policy (a filter policy may change between runs; a filter written under another
+     name must be ignored, never interpreted by the wrong policy): every present key is still found */
+  {
+    int w;
+    for (w = 0; w < 2 && !bad; w++) {
+      /* w = 0: the file built above; w = 1 (pattern 0 only): the same entries built with a foreign policy */
+      const ldb_bloom_t *readers[4];
+      int nr = 0, r;
+      if (w == 1) {
+        if (pat != 0) break;
+        opt.filter_policy = &foreign_pol[2];
+        tv_get();
+        rc = ldb_truncfile_create(TPATH, &wf);
+        if (rc != LDB_OK) vh_die("create table file: %d", rc);
+        tb = ldb_tablegen_create(&opt, wf);
+        for (i = 0; i < n; i++) {
+          ldb_slice_t k = ldb_slice(E[i].k, E[i].kn), v = ldb_slice(E[i].v, E[i].vn);
+          ldb_tablegen_add(tb, &k, &v);
+        }
+        rc = ldb_tablegen_finish(tb);
+        size = ldb_tablegen_size(tb);
+        ldb_tablegen_destroy(tb);
+        rc2 = ldb_wfile_close(wf);
+        ldb_wfile_destroy(wf);
+        if (rc != LDB_OK || rc2 != LDB_OK)
+          TFAIL("build_status", "raw keys, %s mask=0x%02x pat=%d, foreign writer policy: finish=%d close=%d", ct, mask, pat, rc, rc2);
+        readers[nr++] = blooms[1];
+        readers[nr++] = NULL;
+        readers[nr++] = &foreign_pol[0];
+      } else {
+        readers[nr++] = &foreign_pol[0];
+        readers[nr++] = &foreign_pol[1];
+        readers[nr++] = g.filter ? NULL : blooms[1];
+      }
+      for (r = 0; r < nr && !bad; r++) {
+        ldb_rfile_t *rf2 = NULL;
+        ldb_table_t *tbl2 = NULL;
+        ldb_dbopt_t o2 = opt;
+        o2.filter_policy = readers[r];
+        if (ldb_randfile_create(TPATH, &rf2, g.mm) != LDB_OK) vh_die("open table file");
+        rc = ldb_table_open(&o2, rf2, size, &tbl2);
+        if (rc != LDB_OK) {
+          ldb_rfile_destroy(rf2);
+          TFAIL("open_status", "raw keys, %s mask=0x%02x pat=%d: ldb_table_open with reader policy %s returned %d", ct, mask, pat, readers[r] ? readers[r]->name : "none", rc);
+        }
+        for (i = 0; i < n; i++) {
+          ldb_slice_t ts = ldb_slice(E[i].k, E[i].kn);
+          rawget_t gc;
+          memset(&gc, 0, sizeof(gc));
+          gc.want = &E[i];
+          rc = ldb_table_internal_get(tbl2, &ropt, &ts, &gc, rawget_cb);
+          n_gets++;
+          n_foreign_policy_gets++;
+          if (rc != LDB_OK || gc.calls != 1 || !gc.right) {
+            hexs(E[i].k, E[i].kn, hk, sizeof(hk));
+            snprintf(f->sig, sizeof(f->sig), "get_missed_present_key_foreign_policy");
+            snprintf(f->detail, sizeof(f->detail), "raw keys, %s mask=0x%02x pat=%d: table written with filter policy %s, read with policy %s: internal_get(%s) status %d reported %s although the key is present (a filter stored under another policy's name must be ignored)",
+                     ct, mask, pat, w ? foreign_pol[2].name : (g.filter ? BLOOM_NAME : "none"), readers[r] ? readers[r]->name : "none", hk, rc, gc.calls ? "a wrong entry" : "nothing");
+            bad = 1;
+            break;
+          }
+        }
+        ldb_table_destroy(tbl2);
+        ldb_rfile_destroy(rf2);
+      }
+    }
+  }
 done:
   ldb_iter_destroy(it);
   ldb_table_destroy(tbl);
@@ -1524,7 +1608,7 @@ main(int argc, char **argv) {
            "\"lookups_nothing_reported_without_filter\":%llu,\"lookups_reported_next_user_key\":%llu,"
            "\"ref_decoded_entries\":%llu,\"ref_filter_probes\":%llu,\"data_blocks\":%llu,\"tables_with_snappy_blocks\":%llu,"
            "\"separator_pairs\":%llu,\"separators_shortened\":%llu,\"successor_cases\":%llu,\"snappy_strings\":%llu,"
-           "\"snappy_input_bytes\":%llu,\"raw_key_tables\":%llu,\"raw_key_lookups\":%llu,\"raw_single_entry_blocks_over_2k\":%llu",
+           "\"snappy_input_bytes\":%llu,\"raw_key_tables\":%llu,\"raw_key_lookups\":%llu,\"raw_single_entry_blocks_over_2k\":%llu,\"lookups_with_reader_policy_other_than_writer\":%llu",
            (unsigned long long)n_eval, (stopped || drv.replay) ? "false" : "true", (unsigned long long)n_tables,
            (unsigned long long)n_witness, (unsigned long long)n_seeks, (unsigned long long)n_iter_steps,
            (unsigned long long)n_gets, (unsigned long long)n_gets_found, (unsigned long long)n_gets_nocb_filter,
@@ -1532,7 +1616,7 @@ main(int argc, char **argv) {
            (unsigned long long)n_filter_probes, (unsigned long long)n_blocks, (unsigned long long)n_compressed_tables,
            (unsigned long long)n_sep_pairs, (unsigned long long)n_sep_shortened, (unsigned long long)n_succ,
            (unsigned long long)n_snappy, (unsigned long long)n_snappy_bytes, (unsigned long long)n_raw_tables,
-           (unsigned long long)n_raw_gets, (unsigned long long)n_raw_big_single_blocks);
+           (unsigned long long)n_raw_gets, (unsigned long long)n_raw_big_single_blocks, (unsigned long long)n_foreign_policy_gets);
   drv_result(res);
   return 0;
 }
